@@ -364,24 +364,41 @@ pub mod proofs {
         kani::cover!(which == 2);
     }
 
-    /// The encoder's size limit: exactly 65516 payload bytes are accepted, one more is refused (concrete payloads; sink counts only).
+    /// The encoders' size limit: a line (prefix/suffix bytes included) of exactly 65516 data bytes is written as a
+    /// 65520-byte line whose length prefix is "fff0"; one byte more is refused. Concrete payloads, sink counts only.
     #[kani::proof]
     #[kani::unwind(6)]
     #[kani::stub(alloc::fmt::format, crate::util::stub_format)]
     pub fn c29_encode_limit() {
         static BIG: [u8; 65517] = [b'x'; 65517];
+        let which: u8 = kani::any();
+        kani::assume(which < 4);
+        // bytes the encoder adds itself: data 0, text 1 (LF), ERR 4, band 1
+        let extra: usize = match which {
+            0 => 0,
+            1 => 1,
+            2 => 4,
+            _ => 1,
+        };
         let over: bool = kani::any();
-        let n = if over { 65517 } else { 65516 };
+        let n = 65516 - extra + usize::from(over);
         let mut sink = crate::util::CountSink(0);
-        match encode::data_to_write(&BIG[..n], &mut sink) {
+        let res = match which {
+            0 => encode::data_to_write(&BIG[..n], &mut sink),
+            1 => encode::text_to_write(&BIG[..n], &mut sink),
+            2 => encode::error_to_write(&BIG[..n], &mut sink),
+            _ => encode::band_to_write(Channel::Progress, &BIG[..n], &mut sink),
+        };
+        match res {
             Ok(w) => {
-                assert!(!over && w == 65520 && sink.0 == 65520);
-                kani::cover!(true, "largest line written");
+                assert!(!over, "a line longer than 65520 bytes must be refused: no decoder accepts it");
+                assert!(w == 65520 && sink.0 == 65520);
+                kani::cover!(which == 2, "largest ERR line written");
             }
             Err(e) => {
                 std::mem::forget(e);
-                assert!(over);
-                kani::cover!(true, "oversized line refused");
+                assert!(over, "the largest admissible line must be written");
+                kani::cover!(which == 3, "oversized band line refused");
             }
         }
     }
